@@ -179,7 +179,11 @@ func (t *T) AppendVariant(variantT T) {
 					newVariants = append(newVariants, targetTVariant)
 				}
 
-				if newVariants[targetTVariantIdx].IsEqualObject(&targetTVariant) {
+				// the same plain class at this position (for an element that
+				// is itself an array IsEqualObject asks what it CONTAINS:
+				// Array<Symbol> merged with Symbol would lose the Symbol)
+				if len(newVariants[targetTVariantIdx].variants) == 0 &&
+					newVariants[targetTVariantIdx].IsEqualObject(&targetTVariant) {
 					continue
 				}
 
